@@ -22,8 +22,8 @@ theorem gen_force_fragment :
     Gen.IRIFacts.forceFragmentSuffix = "#" ∧
     Gen.IRIFacts.forceFragmentCombine = "iri.forceFragment||ref.forceFragment" := ⟨rfl, rfl⟩
 
-/-- resolvePath compares `elem` with "." and ".." in the loop and again after it -/
+/-- the only literals resolvePath compares `elem` with are "." and ".." -/
 theorem gen_resolvePath_literals :
-    Gen.IRIFacts.resolvePathElemLiterals = [".", "..", ".", ".."] := rfl
+    Gen.IRIFacts.resolvePathElemLiterals = [".", ".."] := rfl
 
 end RdfModel.C12
